@@ -167,7 +167,7 @@ impl WakerQueue {
     /// `handle_waker(&mut self)`; the ghost flag records whether this lock observed an empty queue.
     #[verifier::external_body]
     pub fn guard(&mut self) -> (g: QueueGuard)
-        ensures final(self).last_empty() == (g@.len() == 0),
+        ensures final(self).last_empty() == (g@.len() == 0), g.at_lock() == g@,
     { unimplemented!() }
 
     #[verifier::external_body]
@@ -179,11 +179,20 @@ impl WakerQueue {
 
 impl QueueGuard {
     pub uninterp spec fn view(&self) -> Seq<WakerInterest>;
+    /// the queue as it was when this guard was taken (ghost)
+    pub uninterp spec fn at_lock(&self) -> Seq<WakerInterest>;
 
     #[verifier::external_body]
     pub fn pop_front(&mut self) -> (r: Option<WakerInterest>)
         ensures old(self)@.len() == 0 ==> r.is_none() && final(self)@ == old(self)@,
                 old(self)@.len() > 0 ==> r == Some(old(self)@[0]) && final(self)@ == old(self)@.subrange(1, old(self)@.len() as int),
+                final(self).at_lock() == old(self).at_lock(),
+    { unimplemented!() }
+    #[verifier::external_body]
+    pub fn pop_back(&mut self) -> (r: Option<WakerInterest>)
+        ensures old(self)@.len() == 0 ==> r.is_none() && final(self)@ == old(self)@,
+                old(self)@.len() > 0 ==> r == Some(old(self)@.last()) && final(self)@ == old(self)@.drop_last(),
+                final(self).at_lock() == old(self).at_lock(),
     { unimplemented!() }
 }
 
@@ -929,6 +938,10 @@ impl Accept {
                         (#[trigger] sockets@[k]).lst.drained() || sockets@[k].timeout.is_some()));   // [C05] including connections that arrived meanwhile
                     // resuming marks no worker available: a saturated worker stays unavailable until it releases   [C02,C04]
                     assert(self.avail@.subset_of(pre.avail@));   // [C02,C04]
+//@insert arms_of="match guard."
+                // interests are handled OLDEST FIRST: what is left under the lock is the queue without its front element
+                // (a Pause queued before a Resume is acted upon before it)   [C05,C06,C08]
+                assert(guard.at_lock().len() == 0 || guard@ =~= guard.at_lock().subrange(1, guard.at_lock().len() as int));   // [C05,C06,C08]
 //@loop 1
         invariant
             self.wf(),
